@@ -177,7 +177,7 @@ def resolve(opts: dict, conv: dict):
     return o, c
 
 
-class Timeout(Exception):
+class Timeout(BaseException):  # not an Exception: library code that swallows Exception must not swallow the watchdog
     pass
 
 
